@@ -389,6 +389,81 @@ func polyCentered(r *ring.Ring, p ring.Poly) []*big.Int {
 	return out
 }
 
+// outputOwnsStorage: the ciphertext a protocol hands out is the caller's: it shares no storage with the common
+// reference polynomial, which every party (and every later instance finalized from it) holds too.
+func outputOwnsStorage(ctx *core.RunCtx, name string, out *rlwe.Ciphertext, crp any) bool {
+	ctx.Count("oracle.output-owns-storage", 1)
+	if shared, where := sharedBacking(out, crp); shared {
+		ctx.Fail("aliasing", name+"|output-shares-storage-with-the-reference-polynomial", "%s: the output ciphertext shares storage with the common reference polynomial (%s): an in-place operation on it changes the polynomial, and with it every ciphertext finalized from it", name, where)
+		return false
+	}
+	return true
+}
+
+// c16HugeSigma: noise flooding with a standard deviation of 2^58 to 2^67 (statistical security against the holder
+// of 2^40 decryptions of 2^20-bit-precise values asks for such sizes): the bound of the distribution passes 2^64 and
+// the sampler leaves the word-sized path. Only the noise of one key-switch share is examined (recovered with the
+// secrets): hard upper bound and empirical lower bound, on a protocol object or on a copy of it.
+func c16HugeSigma(ctx *core.RunCtx, params rlwe.Parameters) {
+	ch := ctx.Ch
+	logS := 58 + ch.Draw("huge-sigma-log", 10)
+	level := -1
+	for l := 0; l <= params.MaxLevelQ(); l++ {
+		if params.RingQ().ModulusAtLevel[l].BitLen() > logS+6 {
+			level = l
+			break
+		}
+	}
+	if level < 0 {
+		ctx.Count("probe.huge-sigma-does-not-fit-the-modulus", 1)
+		return
+	}
+	ctx.Nontrivial = true
+	sigma := math.Exp2(float64(logS))
+	ks, err := multiparty.NewKeySwitchProtocol(params, ring.DiscreteGaussian{Sigma: sigma, Bound: 6 * sigma})
+	if err != nil {
+		ctx.Fail("protocol", "KeySwitch|constructor", "NewKeySwitchProtocol with sigma 2^%d failed: %v", logS, err)
+		return
+	}
+	if ch.Bool("proto-by-shallowcopy") {
+		ks = ks.ShallowCopy()
+	}
+	kgen := rlwe.NewKeyGenerator(params)
+	skIn, skOut := kgen.GenSecretKeyNew(), kgen.GenSecretKeyNew()
+	ringQ := params.RingQ().AtLevel(level)
+	ct := rlwe.NewCiphertext(params, 1, level)
+	g := core.NewXoshiro(uint64(ch.Draw("msg-seed", 1<<16)))
+	catalog.FillPoly(ringQ, ct.Value[0], g)
+	catalog.FillPoly(ringQ, ct.Value[1], g)
+	share := ks.AllocateShare(level)
+	pk, site, msg := core.Protect(func() { ks.GenShare(skIn, skOut, ct, &share) })
+	if pk {
+		ctx.Fail("protocol", "KeySwitch.GenShare|panic", "GenShare with flooding sigma 2^%d panicked in %s: %s", logS, site, msg)
+		return
+	}
+	c1 := ct.Value[1].CopyNew()
+	if !ct.IsNTT {
+		ringQ.NTT(*c1, *c1)
+	}
+	delta := ringQ.NewPoly()
+	ringQ.Sub(skIn.Value.Q, skOut.Value.Q, delta)
+	t := ringQ.NewPoly()
+	ringQ.MulCoeffsMontgomery(*c1, delta, t)
+	sv := ringQ.NewPoly()
+	sv.CopyLvl(level, share.Value)
+	if !ct.IsNTT {
+		ringQ.NTT(sv, sv)
+	}
+	e := ringQ.NewPoly()
+	ringQ.Sub(sv, t, e)
+	ringQ.INTT(e, e)
+	d := &c16Deploy{ctx: ctx, params: params, sigma: sigma}
+	eff := math.Sqrt(params.NoiseFreshSK()*params.NoiseFreshSK() + sigma*sigma)
+	d.shareB, _ = new(big.Float).SetFloat64(math.Floor(6*eff*(1+1e-9) + 1.5)).Int(nil)
+	ctx.Count("probe.huge-flooding-sigma", 1)
+	d.smudge(polyCentered(ringQ, e), "KeySwitch(huge sigma)", nil)
+}
+
 // --- key switch / public key switch (scheme independent) ----------------------------
 
 // runKeySwitch switches ct (under the ideal secret) to a key shared among the
@@ -749,6 +824,10 @@ func (c16) Run(ctx *core.RunCtx) {
 		}
 	}
 	params := bp.Parameters
+	if ch.Chance("huge-flooding-sigma", 1, 6) {
+		c16HugeSigma(ctx, params)
+		return
+	}
 	d := newDeploy(ctx, params)
 	sc := &c16BGV{params: bp, enc: bgv.NewEncoder(bp), T: bp.PlaintextModulus()}
 	// input: a known slot vector, encrypted under the ideal secret, optionally processed
@@ -1017,6 +1096,9 @@ func (sc *c16BGV) runE2S(d *c16Deploy, ct *rlwe.Ciphertext, m []uint64, inNoise 
 		ctx.Fail("protocol", "ShareToEnc.GetEncryption", "GetEncryption failed: panic=%v %s %s err=%v", pk, site, msg, gerr)
 		return false
 	}
+	if !outputOwnsStorage(ctx, "ShareToEnc.GetEncryption", out, &crp) {
+		return false
+	}
 	if out.Level() != maxLevel {
 		ctx.Fail("metadata", "ShareToEnc|output-level", "re-encryption is at level %d, maximum level is %d", out.Level(), maxLevel)
 		return false
@@ -1263,6 +1345,9 @@ func (sc *c16BGV) runRefresh(d *c16Deploy, ct *rlwe.Ciphertext, m []uint64, inNo
 	}
 	if terr != nil {
 		ctx.Fail("protocol", name+".Transform|error", "Transform failed on valid inputs (ct level %d, e2s level %d, output level %d): %v", level, minLevel, outLevel, terr)
+		return false
+	}
+	if !outputOwnsStorage(ctx, name+".Transform", out, &crp) {
 		return false
 	}
 	if funcInputAbove != 0 {
